@@ -19,7 +19,15 @@ fn be32(v: u32) -> [u8; 4] {
 
 /// A finite f32 with "interesting" magnitude drawn from a local PRNG (never NaN: message equality
 /// is compared with `==`).
+thread_local! {
+    /// Checks that do not compare decoded values with `==` allow non-finite floats in valid messages.
+    pub static ALLOW_NON_FINITE: std::cell::Cell<bool> = const { std::cell::Cell::new(false) };
+}
+
 pub fn finite_f32(r: &mut Rng) -> f32 {
+    if ALLOW_NON_FINITE.with(|a| a.get()) && r.below(12) == 0 {
+        return [f32::NAN, f32::INFINITY, f32::NEG_INFINITY, -0.0, f32::MIN_POSITIVE / 2.0, f32::MAX][r.below(6) as usize];
+    }
     match r.below(6) {
         0 => 0.0,
         1 => -1.0,
@@ -264,7 +272,8 @@ impl T31Spec {
         body[4..8].copy_from_slice(&be32(r.below(86_400_000) as u32));
         body[8..10].copy_from_slice(&be16(1 + r.below(30000) as u16));
         body[10..12].copy_from_slice(&be16(self.azimuth_number));
-        body[12..16].copy_from_slice(&((r.below(72000) as f32) / 200.0).to_be_bytes());
+        let az = if ALLOW_NON_FINITE.with(|a| a.get()) && r.below(16) == 0 { finite_f32(r) } else { (r.below(72000) as f32) / 200.0 };
+        body[12..16].copy_from_slice(&az.to_be_bytes());
         body[16] = 0; // compression indicator
         body[17] = 0; // spare
         body[18..20].copy_from_slice(&be16(body_len.min(65535) as u16));
@@ -272,7 +281,8 @@ impl T31Spec {
         body[21] = self.radial_status;
         body[22] = self.elevation_number;
         body[23] = r.below(4) as u8; // cut sector
-        body[24..28].copy_from_slice(&((r.below(4000) as f32) / 200.0).to_be_bytes());
+        let el = if ALLOW_NON_FINITE.with(|a| a.get()) && r.below(10) == 0 { finite_f32(r) } else { (r.below(4000) as f32) / 200.0 };
+        body[24..28].copy_from_slice(&el.to_be_bytes());
         body[28] = 0; // spot blanking
         body[29] = r.below(3) as u8 * 25; // azimuth indexing mode
         if self.odd_codes {
